@@ -11,7 +11,7 @@ PROP = dict(
             "the population oracle: Store.Contract / Store.V2Contract (lookup by id) report status, renter key, heights and renewal links of a stored contract correctly",
             "population setup writes status and renewal links with direct SQL (shim harness/shims/persist/sqlite/zz_verif_query.go); contracts are inserted with AddContract / AddV2Contract",
         ],
-        level_text="Filter builder, ORDER BY and LIMIT/OFFSET of Store.Contracts/V2Contracts modelled in Lean; proved for every filter, population and page: the WHERE predicate holds exactly for the contracts satisfying all given criteria (for any bound guard), the demanded guard rejects iff a minimum is above its maximum (and the guard found in the tree provably does not), the count is the number of matches whatever limit/offset, a page is drop offset/take limit of the full ordered result (limit 1..100 literal, otherwise 100; API clamp irrelevant), pages tile the result, the page is ordered by the requested key, and the driver's per-key (tie-insensitive) acceptance test never refuses a correct answer. Tied to the code by generated populations in a real sqlite.Store (v1+v2, all statuses, renewal links, duplicate heights) and generated filters whose answers are re-derived by the compiled Lean specification from the contracts read back by id",
+        level_text="Filter builder, ORDER BY and LIMIT/OFFSET of Store.Contracts/V2Contracts modelled in Lean; proved for every filter, population and page: the WHERE predicate holds exactly for the contracts satisfying all given criteria (for any bound guard), the demanded guard rejects iff a minimum is above its maximum (and the guard found in the tree provably does not), the count is the number of matches whatever limit/offset, a page is drop offset/take limit of the full ordered result (limit 1..100 literal, otherwise 100; API clamp irrelevant), pages tile the result, the page is ordered by the requested key, and the driver's per-key (tie-insensitive) acceptance test never refuses a correct answer. Tied to the code by generated populations in a real sqlite.Store (v1+v2, all statuses, renewal links, duplicate heights) and generated filters whose answers are re-derived by the compiled Lean specification from the contracts read back by id Also driven: empty list criteria passed as empty non-nil slices (what a JSON body with an empty array decodes to), and unfiltered listings racing with concurrent formations (every call's total must equal the length of the page it returns up to the 100-row cap: count and page are one snapshot).",
         level_note="trusted: Lean kernel (+propext, Quot.sound), SQLite semantics, Store.Contract/V2Contract as oracle for the stored population, harness canonicalisation (ids/keys -> small integers, status words); the HTTP layer (POST /contracts) is modelled (limit clamp) but not executed",
         assumptions=[
             "'expiration height' of a v1 contract is read as Revision.WindowStart (the column the listing filters and sorts on; rhp/v2 ContractRevision.EndHeight), of a v2 contract as V2FileContract.ExpirationHeight; the neighbouring heights (WindowEnd, ProofHeight) are generated independently so a mix-up is noticed",
